@@ -258,6 +258,10 @@ func SignJWS(ctx context.Context, payload []byte, protectedHeaders map[string]in
 			// which is the interface implemented by all private key types.
 			return "", errors.New("refusing to sign JWS with private key in JWK header")
 		}
+		// Not all secret key material implements crypto.Signer (X25519 private keys, symmetric keys)
+		if isPrivate, err := jwk.IsPrivateKey(headers.JWK()); err != nil || isPrivate {
+			return "", errors.New("refusing to sign JWS with private key in JWK header")
+		}
 	}
 
 	var (
